@@ -116,7 +116,10 @@ def _walker(center, left, right, s):
 
 def _check_interp(steps, scheme, res, case_extra=None):
     center = _verts(steps)
-    left, right = _bounds(center, "const" if scheme in ("3d", "setters", "3d-flattened") else scheme)
+    left, right = _bounds(center, "const" if scheme in ("3d", "setters", "3d-flattened", "far-small") else scheme)
+    if scheme == "far-small":
+        # a densely sampled lanelet far from the origin (UTM-like coordinates): vertices 0.1 .. 1 m apart at coordinates of several 1e4 m
+        center, left, right = ([(6.0e4 + 0.1 * x, 4.0e4 + 0.1 * y) for x, y in P] for P in (center, left, right))
     if scheme == "3d":
         # (n, 3) polylines: a ramp whose height changes from vertex to vertex; the length of the centre line is its length in space
         zs = [0.0, 2.0, 2.0, 7.0, 3.0][:len(center)]
@@ -393,7 +396,7 @@ def run_unit(unit, tier):
     if k == "interp":
         pl = _polylines(unit["ms"])[unit["lo"]:unit["hi"]]
         for steps in pl:
-            for scheme in OFFS + ["int", "3d", "setters", "3d-flattened"]:
+            for scheme in OFFS + ["int", "3d", "setters", "3d-flattened", "far-small"]:
                 _check_interp(steps, scheme, res)
             res.sample({"k": "interp", "steps": steps}, 2)
     elif k == "merge":
